@@ -10,6 +10,12 @@ from .common import write_replay, run_replay, SEED
 U = 3          # universe {0,1,2}; 'zz' is a value that is never a node
 
 
+def sget(q, k):
+    """membership of k in one alternative of a set-valued slot; None is the evaluator's poison value of a path that raised
+    (its guard is dead or covered by the exception guard)"""
+    return q.get(k) if q is not None else False
+
+
 def names_ctor():
     return (['s_%d' % i for i in range(U)] + ['t_%d_%d' % (i, j) for i in range(U) for j in range(U)] +
             ['s0_%d' % i for i in range(U)] + ['lk_%d' % i for i in range(U)] + ['lp_%d' % i for i in range(U)])
@@ -60,14 +66,16 @@ def ctor_task(fixed, u=(0, 1, 2)):
     nxt, labs, S0o = K.attrs['_next'], K.attrs.get('_labels'), K.attrs.get('S0')
     isnode = [nxt.present.get(u[i], False) for i in range(U)]
     impl += [b_and(ok_g, x) for x in isnode]
-    impl += [b_and(ok_g, isnode[i], fold_b(nxt.vals[u[i]], lambda q: q.get(u[j]))) if u[i] in nxt.present else False for i in range(U) for j in range(U)]
+    impl += [b_and(ok_g, isnode[i], fold_b(nxt.vals[u[i]], lambda q: sget(q, u[j]))) if u[i] in nxt.present else False for i in range(U) for j in range(U)]
     if labs is not None:
         impl += [b_and(ok_g, labs.present.get(u[i], False)) for i in range(U)]
-        impl += [b_and(ok_g, labs.present.get(u[i], False), fold_b(labs.vals[u[i]], lambda q: q.get('p'))) if u[i] in labs.present else False for i in range(U)]
+        impl += [b_and(ok_g, labs.present.get(u[i], False), fold_b(labs.vals[u[i]], lambda q: sget(q, 'p'))) if u[i] in labs.present else False for i in range(U)]
         bad += [b_and(ok_g, p) for k, p in labs.present.items() if k not in u]
         for i in u:
             if i in labs.present:
                 for (ga, q) in alts_of(labs.vals[i]):
+                    if q is None:
+                        continue
                     bad += [b_and(ok_g, labs.present[i], ga, b) for k, b in q.bits.items() if k != 'p']
                     # the label set must be a copy, not the caller's object
                     for (gl, orig) in (alts_of(L.vals[i]) if i in L.vals else []):
@@ -75,9 +83,9 @@ def ctor_task(fixed, u=(0, 1, 2)):
                             bad.append(b_and(ok_g, labs.present[i], ga))
     else:
         bad.append(ok_g)
-    impl += [b_and(ok_g, fold_b(S0o, lambda q: q.get(u[i]))) for i in range(U)] if S0o is not None else [False] * U
+    impl += [b_and(ok_g, fold_b(S0o, lambda q: sget(q, u[i]))) for i in range(U)] if S0o is not None else [False] * U
     if S0o is not None:
-        bad += [b_and(ok_g, fold_b(S0o, lambda q: q.get('zz')))]
+        bad += [b_and(ok_g, fold_b(S0o, lambda q: sget(q, 'zz')))]
     # accessors on a non-state must raise RuntimeError; on a state they return the sets
     for xi in list(range(U)) + ['zz']:
         x = u[xi] if xi != 'zz' else 'zz'
@@ -194,21 +202,23 @@ def copy_task(what, fixed, u=(0, 1, 2)):
         nxt, labs, S0o = C.attrs['_next'], C.attrs.get('_labels'), C.attrs.get('S0')
         isnode = [nxt.present.get(u[i], False) for i in range(U)]
         impl += [b_and(ok_g, x) for x in isnode]
-        impl += [b_and(ok_g, isnode[i], fold_b(nxt.vals[u[i]], lambda q: q.get(u[j]))) if u[i] in nxt.present else False for i in range(U) for j in range(U)]
+        impl += [b_and(ok_g, isnode[i], fold_b(nxt.vals[u[i]], lambda q: sget(q, u[j]))) if u[i] in nxt.present else False for i in range(U) for j in range(U)]
         bad += [b_and(ok_g, p) for k, p in nxt.present.items() if k not in u]
         if labs is not None:
             impl += [b_and(ok_g, labs.present.get(u[i], False)) for i in range(U)]
-            impl += [b_and(ok_g, labs.present.get(u[i], False), fold_b(labs.vals[u[i]], lambda q: q.get('p'))) if u[i] in labs.present else False for i in range(U)]
+            impl += [b_and(ok_g, labs.present.get(u[i], False), fold_b(labs.vals[u[i]], lambda q: sget(q, 'p'))) if u[i] in labs.present else False for i in range(U)]
             for i in u:
                 if i in labs.present:
                     for (ga, q) in alts_of(labs.vals[i]):
+                        if q is None:
+                            continue
                         bad += [b_and(ok_g, labs.present[i], ga, b) for k, b in q.bits.items() if k != 'p']
                         if any(q is o for o in korig_sets):
                             shared = True
         else:
             impl += [False] * (2 * U)
             bad.append(ok_g)
-        impl += [b_and(ok_g, fold_b(S0o, lambda q: q.get(u[i]))) for i in range(U)] if S0o is not None else [False] * U
+        impl += [b_and(ok_g, fold_b(S0o, lambda q: sget(q, u[i]))) for i in range(U)] if S0o is not None else [False] * U
         for i in u:
             if i in nxt.present:
                 for (ga, q) in alts_of(nxt.vals[i]):
